@@ -5,7 +5,7 @@ import itertools
 
 from vmon import env, hooks
 from vmon.aromgen import (STANDARD, ANCHORED, EXOTIC, ALL_KINDS, standard_system, substituted_system,
-                          cage_system, CAGE_NAMES, pi_set, link_systems)
+                          cage_system, CAGE_NAMES, pi_set, link_systems, single_ring_bonds)
 from vmon.hooks import MON, call_guard
 from vmon.matching import exact_pm, judge_matching, is_bipartite
 from vmon.molgen import spell
@@ -311,6 +311,8 @@ def run(ctx):
         parts = [standard_system(rng, nrings=rng.choice([1, 1, 2]), sizes=rng.choice([(5, 6, 6, 7), (6,), (6, 8), (4, 6, 8)]),
                                  chords=0) for _ in range(rng.choice([2, 2, 3]))]
         m, kind_of, ae = link_systems(rng, parts)
+        if rng.random() < 0.5:
+            ae = single_ring_bonds(rng, m, kind_of, ae, k=rng.choice([1, 1, 2]))
         A.group(m, kind_of, ae, "standard", 4, "G6-linked")
         ctx.count("linked.groups")
     for i in range(100 if quick else 3000):
